@@ -127,6 +127,9 @@ def run(ctx):
     control = dict(mode="shift", dev="bar", field=0.4, current=3.0, shift=(0.25, 0.4), steps=40, warm=30, break_seed=True)
     jobs.append(("call", dict(module="harness.fvops", func="gauge_run_pair", args=control)))
     res = rf.replay_all(ctx, jobs)
+    nrefused = sum(1 for t in res[nexact: nexact + nfloat] if t["kind"] == "refused")
+    res = [t for k, t in enumerate(res) if not (nexact <= k < nexact + nfloat and t["kind"] == "refused")]
+    nfloat -= nrefused
     traces, runs, ctl = res[: nexact + nfloat], res[nexact + nfloat: -1], res[-1]
     # 3. code -> spec, operator level
     for t in traces:
